@@ -167,27 +167,26 @@ def regexActive (c : Char) : Bool :=
 
 abbrev Caps := List (Key × List Char)
 
-/-- `_fill_placeholders`: one regex item per token; a placeholder captures only at its first
-occurrence (`seen` = names that occurred before) -/
+/-- the regex item of one token; a placeholder captures only at its first occurrence
+(`seen` = names that occurred before) -/
+def compileTok (cfg : Cfg) (seen : List Key) : Tok → Except Err ((Item × Option Key) × List Key)
+  | .lit c => if regexActive c then .error .regexError else .ok ((.char c, none), seen)
+  | .star => .ok ((.lazy 0, none), seen)
+  | .ph (.time isEnd f) =>
+    if seen.contains (.time isEnd f) then .ok ((.digits f.width, none), seen)
+    else .ok ((.digits f.width, some (.time isEnd f)), .time isEnd f :: seen)
+  | .ph (.user n) =>
+    match cfg.regexOf n with
+    | none => .error .unknownPlaceholder
+    | some r =>
+      if seen.contains (.user n) then .ok ((r.item, none), seen)
+      else .ok ((r.item, some (.user n)), .user n :: seen)
+
+/-- `_fill_placeholders`: one regex item per token -/
 def compile (cfg : Cfg) : List Tok → List Key → Except Err (List (Item × Option Key))
   | [], _ => .ok []
   | t :: ts, seen =>
-    let head : Except Err ((Item × Option Key) × List Key) :=
-      match t with
-      | .lit c => if regexActive c then .error .regexError else .ok ((.char c, none), seen)
-      | .star => .ok ((.lazy 0, none), seen)
-      | .ph k =>
-        let it : Except Err Item :=
-          match k with
-          | .time _ f => .ok (.digits f.width)
-          | .user n =>
-            match cfg.regexOf n with
-            | some r => .ok r.item
-            | none => .error .unknownPlaceholder
-        match it with
-        | .error e => .error e
-        | .ok i => if seen.contains k then .ok ((i, none), seen) else .ok ((i, some k), k :: seen)
-    match head with
+    match compileTok cfg seen t with
     | .error e => .error e
     | .ok (x, seen') =>
       match compile cfg ts seen' with
